@@ -97,6 +97,57 @@ theorem C12_elapsed_total (startT endT now : Int) (h : InLife startT endT now) :
     totalUs startT endT - leftUs endT now = now / 1000 - startT / 1000 :=
   ⟨(totalUs_eq h).1, (leftUs_eq h).2.2.2⟩
 
+/-- **A gauge that is on schedule stays safe at every later reward block** (the step C05 leaves as
+its explicit hypothesis `GaugesSafe`, per gauge).  Take a gauge of `A` units whose escrow account
+holds what is left after a release at `now1` — `A − cumulative now1`, the balance
+`C12_release_formula` proves for the state right after that release — and let nothing but the
+gauge's own releases have touched the account since.  Then at any later instant `now2` of the
+gauge's life the release computation of `pullTokensFromGauges` does not divide by zero, and the
+amount it computes is exactly `cumulative now2 − cumulative now1`: non-negative (no
+"negative coin amount" panic) and within int64 (no `Int64()` panic). -/
+theorem C12_on_schedule_gauge_is_safe_later (startT endT now1 now2 A bal : Int)
+    (hA : 0 ≤ A) (hA64 : A ≤ I64.maxV)
+    (h1 : InLife startT endT now1) (h2 : InLife startT endT now2) (hle : now1 ≤ now2)
+    (hbal : bal = A - cumulative startT endT now1 A) :
+    ∃ q, Dec.quo? (Dec.ofInt (Int.tdiv endT 1000 - Int.tdiv now2 1000))
+            (Dec.ofInt (Int.tdiv endT 1000 - Int.tdiv startT 1000)) = some q ∧
+      Dec.trunc (Dec.sub (Dec.mul (Dec.sub Dec.one q) (Dec.ofInt A)) (Dec.ofInt (A - bal)))
+        = cumulative startT endT now2 A - cumulative startT endT now1 A ∧
+      0 ≤ cumulative startT endT now2 A - cumulative startT endT now1 A ∧
+      I64.inRange (cumulative startT endT now2 A - cumulative startT endT now1 A) = true := by
+  have hT := (totalUs_eq h2).2
+  have hne : (Dec.ofInt (Int.tdiv endT 1000 - Int.tdiv startT 1000)).raw ≠ 0 := by
+    have : (Dec.ofInt (totalUs startT endT)).raw = totalUs startT endT * precision := rfl
+    unfold totalUs at this hT
+    rw [this]
+    have hp := precision_pos
+    intro h0
+    have := Int.mul_eq_zero.mp h0
+    omega
+  obtain ⟨r0, r1⟩ := cumulative_range A hA h1
+  obtain ⟨s0, s1⟩ := cumulative_range A hA h2
+  have hmono := cumulative_mono A hA h1 h2 hle
+  cases hq : Dec.quo? (Dec.ofInt (Int.tdiv endT 1000 - Int.tdiv now2 1000))
+      (Dec.ofInt (Int.tdiv endT 1000 - Int.tdiv startT 1000)) with
+  | none =>
+    unfold Dec.quo? at hq
+    rw [if_neg hne] at hq
+    cases hq
+  | some q =>
+    have hr : ratioAt startT endT now2 = Dec.sub Dec.one q := by
+      unfold ratioAt leftUs totalUs
+      rw [hq]; rfl
+    refine ⟨q, rfl, ?_, by omega, ?_⟩
+    · rw [← hr]
+      have hW : A - bal = cumulative startT endT now1 A := by omega
+      rw [hW]
+      exact release_amount A _ hA h2 r0 hmono
+    · unfold I64.inRange I64.minV
+      unfold I64.maxV at hA64
+      simp only [Bool.and_eq_true, decide_eq_true_eq]
+      unfold I64.maxV
+      omega
+
 /-- **Monotonicity**: later reward blocks never see a smaller cumulative amount (any `A ≥ 0`). -/
 theorem C12_monotone (startT endT now1 now2 A : Int) (hA : 0 ≤ A)
     (h1 : InLife startT endT now1) (h2 : InLife startT endT now2) (hle : now1 ≤ now2) :
